@@ -74,7 +74,8 @@ def _render_state(args, nmods=0, fmt='s', str_mods=True):
         cls = E.lookup_qual(VAR)
         d = HDict()
         d.entries = [[VC(k), (VC(v) if not isinstance(v, V) else v)] for k, v in args.items()]
-        mods = VT([VO('mod%d' % i, 'str-valued' if str_mods else None) for i in range(nmods)])
+        proto = str_mods if callable(str_mods) else ('str-valued' if str_mods else None)
+        mods = VT([VO('mod%d' % i, proto) for i in range(nmods)])
         me = E.alloc(HObj(cls, {'args': E.alloc(d), 'modifiers': mods, '__name__': VC('x'), 'expr': NONE, 'fmt': VC(fmt),
                                 'encoding': NONE}, name='self'))
         env.locals['self'] = me
